@@ -238,7 +238,7 @@ pub fn select_world(nodes: &[Node], defines: &[(String, DefVal)]) -> World {
             Item::Label { dots, name } => {
                 ctx.truncate(*dots);
                 ctx.push(name.clone());
-                seen.push(ctx.join("."));
+                // (a label is no constant: a define that names it names no declared constant)
             }
             _ => {}
         }
@@ -465,7 +465,7 @@ pub fn gen_cond(t: &mut Tape) -> (Vec<Node>, Vec<(String, DefVal)>) {
     // defines
     let mut defs = Vec::new();
     for _ in 0..t.weighted(&[3, 3, 2, 1, 1]) {
-        let name = if dispatch && t.chance(1, 3) { "sel7".to_string() } else { t.pick(&["c0", "c1", "c2", "c3", "c4", "cfg.dbg", "cfg.lvl", "nosuch", "cfg.nosuch"]).to_string() };
+        let name = if dispatch && t.chance(1, 3) { "sel7".to_string() } else { t.pick(if crate::engine::gen_version() >= 2 { &["c0", "c1", "c2", "c3", "c4", "cfg.dbg", "cfg.lvl", "nosuch", "cfg.nosuch", "lbl0", "lbl1", "gtop"][..] } else { &["c0", "c1", "c2", "c3", "c4", "cfg.dbg", "cfg.lvl", "nosuch", "cfg.nosuch"][..] }).to_string() };
         if defs.iter().any(|d: &(String, DefVal)| d.0 == name) {
             continue;
         }
